@@ -14,6 +14,7 @@ oracle(): the property itself, evaluated on what was recorded from the real obje
 """
 import itertools, json, re
 import checklib
+import c11del
 from checklib import Prop
 
 ARCHES = ["x86_64", "i386", "ppc64le", "ppc64", "ppc"]      # incl. a family of names that are prefixes of each other
@@ -930,10 +931,17 @@ class C11(Prop):
             "step: outcome class, children dicts, parent pointers, ci[uid] of every object compared real vs model, and the property's "
             "invariants evaluated on the real objects; on the final forest all 6 arch filters x 16 type subsets x recursive (+ 'self' "
             "queries on variants); the same after dumps()/loads(), whose deserialize add-history is replayed through the model; "
-            "non-trivial = distinct history with at least one accepted and (quick: usually) one refused add")
+            "non-trivial = distinct history with at least one accepted and (quick: usually) one refused add; "
+            "del stream (budget/4 further cases, harness/c11del.py): histories of 4-18 add / del steps - del by plain key and by dashed path (2 and 3 levels) "
+            "on the top-level container and on variants, missing names (no key, missing head, missing tail, '', '-', 'A-', near-miss spellings), del twice, "
+            "del then re-add (same place / elsewhere), add below a removed variant, del of a parent then lookups of the former children, UID of a dashed "
+            "top-level variant, a child's full UID asked of its parent, a child named like a top-level variant; after EVERY step the snapshot, the "
+            "designated entry, container[name] before the del and get_variants(recursive) compared real vs model, and the oracle (invariants; exactly the entry the "
+            "lookup names goes; removed subtree not returned / not found; raising del = KeyError, nothing changed)")
     assumptions = ["attributes of a Variant (id, uid, name, type, arches) are not written between add calls (the property quantifies over add histories)",
                    "Python's stable list.sort is modelled by a stable insertion sort; str comparison by code point",
-                   "RecursionError is modelled as running out of fuel (900 frames)"]
+                   "RecursionError is modelled as running out of fuel (900 frames)",
+                   "del: names are str; the delegation of __delitem__ gets len(name)+1 frames (it recurses once per dash), i.e. never hits the recursion limit"]
     partial = {
         "C11_inv_partial": "full Inv (parent/children mirror, one position per object, top-level UID alignment, top-level key = id or UID) is preserved by every add - accepted or refused, whatever the parent pointer of the argument - whose argument is not already filed under ANOTHER container object or key (AddOk). Still needed after the F13/F26 repair: add does not check it, and two Variant objects with one UID both accept the same child (F33, C11_two_parents_witness); explicit top-level keys are unchecked (F29). Unconditional part: C11_inv (InvW)",
         "C11_reachable_partial": "same hypothesis on every call of the history (OkRun); unconditional part: C11_reachable (InvW after ANY history)",
@@ -943,10 +951,14 @@ class C11(Prop):
         "C11_findable_inv_partial": "as C11_findable_partial with key/alignment facts taken from Inv",
         "C11_get_variants_strict_partial": "generic form: strict order and no duplicates from pairwise distinct UIDs of the result; discharged without hypothesis for every variant container (C11_get_variants_strict_below)",
         "C11_get_variants_strict_top_partial": "on the top-level container distinctness of UIDs across top-level subtrees (TopApart) is a hypothesis: add does not enforce it (F14; with F33 a variant is then still returned twice: C11_twice_witness)",
+        "C11_reachable_with_del_partial": "full Inv after any history of add / del when every ADD satisfies AddOk in the state it is made in (as C11_reachable_partial; nothing is asked of the dels); unconditional part: C11_reachable_with_del (InvW). C11_del_inv itself is unconditional for both invariants",
         "C11_get_variants_strict_dashless_partial": "TopApart derived from Inv when no top-level UID is dashed; with dashed top-level UIDs it stays a hypothesis (F14)",
     }
 
     def cases(self, rng, tier, budget):
+        # the del stream (VariantBase.__delitem__): one case in four on top of the add histories
+        for i in range(budget // 4):
+            yield c11del.DelGen(rng, tier, (i % 5) >= 3).case()
         if tier == "quick":
             for i in range(budget):
                 yield Gen(rng, tier, (i % 5) >= 3, untyped=(i % 12 == 5)).case()
@@ -963,11 +975,15 @@ class C11(Prop):
         self._cache = {}
 
     def real(self, case):
+        if case["op"] == "c11del":
+            return c11del.execute(case)
         out = execute(case)
         self._cache[checklib.key_of(case)] = out
         return out
 
     def model_requests(self, case):
+        if case["op"] == "c11del":
+            return c11del.model_requests(case)
         a = case["args"]
         if a.get("untyped"):
             self._cache.pop(checklib.key_of(case), None)
@@ -988,6 +1004,8 @@ class C11(Prop):
         return [{"out": s["out"], "top": s["top"], "kids": s["kids"], "parent": s["parent"], "byuid": s["byuid"]} for s in steps]
 
     def compare(self, case, real_out, model_out):
+        if case["op"] == "c11del":
+            return c11del.compare(case, real_out, model_out)
         r = {"steps": self._proj_steps(real_out["steps"]), "qres": real_out["qres"]}
         m = {"steps": self._proj_steps(model_out[0]["steps"]), "qres": model_out[0]["queries"]}
         rl = real_out.get("reload")
@@ -1011,10 +1029,11 @@ class C11(Prop):
         return None
 
     def oracle(self, case, real_out):
-        fails = oracle_run(case, real_out)
+        is_del = case["op"] == "c11del"
+        fails = c11del.oracle_run(case, real_out) if is_del else oracle_run(case, real_out)
         if not fails:
             return None
-        unexplained = [f for f in fails if not _explained(f)]
+        unexplained = [f for f in fails if not (c11del.explained(f) if is_del else _explained(f))]
         # among explained failures report the rarer ones first (the F28 'self' queries fail on every forest of the nasty stream)
         order = sorted(fails, key=lambda f_: (f_["kind"] != "reload-failed", f_["kind"].startswith("gv-")))
         f = (unexplained or order)[0]
@@ -1025,6 +1044,8 @@ class C11(Prop):
         return "ok" in outs
 
     def stats(self, case, real_out, dist):
+        if case["op"] == "c11del":
+            return c11del.stats(case, real_out, dist)
         for op, s in zip(case["args"]["ops"], real_out["steps"]):
             k = "op:%s:%s" % (op.get("kind", "?"), "ok" if s["out"] == "ok" else s["out"])
             dist[k] = dist.get(k, 0) + 1
@@ -1049,6 +1070,8 @@ class C11(Prop):
         dist["gv-queries"] = dist.get("gv-queries", 0) + len(real_out["queries"]) + (len(rl["queries"]) if rl and "ops" in rl else 0)
 
     def shrink_candidates(self, case):
+        if case["op"] == "c11del":
+            return c11del.shrink_candidates(case)
         a = case["args"]
         out = []
         ops = a["ops"]
@@ -1089,6 +1112,12 @@ MANIFEST = dict(
          "parent pointers). False of the code and kept as known findings with predicates: F14 (dashed top-level UID may equal a child's UID), F33 (a variant already filed under "
          "one object is accepted by another object with the same UID), F27 (__getitem__ compares the relative path with full child UIDs: ci['A-A-C'] is A-C), F28 ('self' ignores "
          "the arch filter / raises on the top level), F29 (explicit top-level key unchecked). Repaired: F13, F26. Not modelled: attribute writes "
-         "between adds, __delitem__, the JSON writer/reader (the reloaded forest is tied by replaying deserialize's add history through the model); termination of "
-         "get_variants is not proved (results are stated for every fuel that suffices; running out of fuel = RecursionError).",
+         "between adds, the JSON writer/reader (the reloaded forest is tied by replaying deserialize's add history through the model); termination of "
+         "get_variants is not proved (results are stated for every fuel that suffices; running out of fuel = RecursionError). "
+         "del container[name] (VariantBase.__delitem__, Model/ForestDel.lean, hand-written, tied by the per-step differential of the del stream in harness/c11del.py): "
+         "C11_del_inv (InvW AND the full Inv survive every del, no hypothesis), C11_del_missing_keyerror (a raising del is a KeyError and changes nothing), C11_del_frame "
+         "(one entry of one dict goes, every other dict and EVERY parent pointer stay - the removed object keeps its stale pointer and its subtree), C11_del_removes_subtree "
+         "(under Inv: the removed variant and everything below it is unreachable from the top, returned by no get_variants, found by no lookup), C11_reachable_with_del / "
+         "_partial (any history of add / refused add / del / raising del). F48 (known): del has no UID scan, so del c[name] and c[name] can designate different variants "
+         "(C11_del_other_witness, C11_del_uid_keyerror_witness, C11_del_shadow_witness).",
     ref="7/C11")
